@@ -1,5 +1,224 @@
+//! C13 – behaviour depends on the bytes sent, not on how they were segmented (metamorphic).
+//! For conversations taken from the generators of C02, C03, C09, C10, C12 and C16 the same
+//! client byte stream is delivered in one write (baseline) and in many segmentations (every
+//! single split point, one byte at a time, random multi-way splits). Each segment is sent only
+//! after the server consumed the previous bytes (FP_SOCK_READ), so the server's reads really
+//! return one segment each. The observation (delivered heads and bodies, responses) must be
+//! identical.
+
+use crate::conv::*;
+use crate::env::Env;
+use crate::gen;
+use crate::net::End;
+use crate::pconv::generate;
+use crate::report::Violation;
+use crate::util::{fnv, Rng, J};
 use crate::Ctx;
 
-pub fn run(_ctx: &Ctx) {
-    unimplemented!()
+const CORPUS_PROPS: &[&str] = &["C02", "C03", "C09", "C10", "C12", "C16", "C03", "C09"];
+
+/// Canonical, segmentation-independent observation.
+fn canon(obs: &ConvObs) -> Vec<String> {
+    let mut v = Vec::new();
+    for d in &obs.delivered {
+        v.push(format!(
+            "D {} {} {:?} h={:016x} n={} len={:?} body={}:{:016x} eof={} err={} fin={}:{:?}",
+            d.method,
+            crate::util::esc(d.url.as_bytes(), 60),
+            d.version,
+            d.echo,
+            d.headers.len(),
+            d.body_length,
+            d.body.len(),
+            fnv(&d.body),
+            d.eof_seen,
+            d.read_err.is_some(),
+            d.finish,
+            d.finish_err.is_some()
+        ));
+    }
+    for (r, _) in &obs.msgs {
+        let hs: Vec<String> = r
+            .headers
+            .iter()
+            .map(|(n, val)| if n.eq_ignore_ascii_case("date") { format!("{}:<date>", n) } else { format!("{}:{}", n, val) })
+            .collect();
+        v.push(format!("R {} {:?} body={}:{:016x} framing={}", r.status, hs, r.body.len(), fnv(&r.body), match r.framing {
+            crate::httpc::Framing::Chunked(_) => "chunked",
+            crate::httpc::Framing::ContentLength(_) => "cl",
+            crate::httpc::Framing::Bodiless => "none",
+            crate::httpc::Framing::UntilClose => "close",
+        }));
+    }
+    if let Some(e) = &obs.parse_error {
+        v.push(format!("P {}", e.chars().take(60).collect::<String>()));
+    }
+    v.push(format!("E {}", match obs.end { End::Eof | End::Rst => "ended", End::Err => "err", End::Open => "open" }));
+    v
+}
+
+fn with_script(base: &ConvCase, ends: Option<Vec<usize>>, pause_us: u64) -> ConvCase {
+    let mut c = base.clone();
+    let half = base.script.iter().any(|s| matches!(s, Step::HalfClose));
+    let total = c.wire.len();
+    let mut s = Vec::new();
+    match ends {
+        None => s.push(Step::Send(0, total)),
+        Some(e) => s.push(Step::SendPaced { from: 0, ends: e, pause_us }),
+    }
+    if half {
+        s.push(Step::HalfClose);
+    }
+    s.push(Step::AwaitEnd);
+    c.script = s;
+    c
+}
+
+pub fn corpus_entry(seed: u64, i: u64) -> (String, u64) {
+    let prop = CORPUS_PROPS[(i as usize) % CORPUS_PROPS.len()];
+    (prop.to_string(), crate::util::mix(seed, 0xC13, i))
+}
+
+fn run_variant(ctx: &Ctx, env: &Env, prop: &str, cseed: u64, base_case: &ConvCase, base_obs: &ConvObs, base_canon: &[String], ends: Vec<usize>, kind: &str) {
+    let rep = &ctx.rep;
+    let case = with_script(base_case, Some(ends.clone()), 400);
+    let obs = run_conv(env, &case);
+    if obs.connect_err.is_some() || (obs.timed_out.is_some() && !obs.healthy) {
+        rep.inconclusive("variant run inconclusive");
+        return;
+    }
+    let c = canon(&obs);
+    // how many separate reads did the server really see, compared with the baseline?
+    let really_segmented = obs.server_reads != base_obs.server_reads;
+    rep.counts.add("segments_sent", obs.segments_sent as u64);
+    rep.counts.add("server_reads_observed", obs.server_reads.len() as u64);
+    rep.inc(&format!("variant:{}", kind));
+    if really_segmented {
+        rep.inc("variants_where_server_reads_differ_from_baseline");
+    }
+    let sig = format!("{}|{:x}|{:x}", prop, cseed & 0xffff_ffff, fnv(format!("{:?}", ends).as_bytes()));
+    rep.eval(if really_segmented { Some(&sig) } else { None });
+    if c != base_canon {
+        let diff_at = c.iter().zip(base_canon.iter()).position(|(a, b)| a != b).unwrap_or(c.len().min(base_canon.len()));
+        rep.violation(Violation {
+            signature: format!("C13/{}/{}/differs", prop, base_case.label),
+            what: format!(
+                "segmentation {} of a {}-byte conversation changes the outcome (first difference in item #{})",
+                kind,
+                base_case.wire.len(),
+                diff_at
+            ),
+            detail: J::obj()
+                .set("corpus_property", J::s(prop))
+                .set("conversation_seed", J::S(cseed.to_string()))
+                .set("segment_ends", J::A(ends.iter().take(200).map(|e| J::u(*e)).collect()))
+                .set("wire", J::S(crate::util::esc(&base_case.wire, 800)))
+                .set("baseline", J::A(base_canon.iter().map(J::s).collect()))
+                .set("variant", J::A(c.iter().map(J::s).collect()))
+                .set("server_read_sizes_variant", J::A(obs.server_reads.iter().take(100).map(|e| J::u(*e)).collect()))
+                .set("server_read_sizes_baseline", J::A(base_obs.server_reads.iter().take(100).map(|e| J::u(*e)).collect())),
+            case_seed: cseed,
+            mode: format!("{}:{}", prop, ends.iter().take(40).map(|e| e.to_string()).collect::<Vec<_>>().join(",")),
+        });
+    } else if rep.want_sample() && (cseed ^ ends.len() as u64) % 29 == 0 {
+        rep.sample(|| {
+            J::obj()
+                .set("corpus_property", J::s(prop))
+                .set("wire_len", J::u(base_case.wire.len()))
+                .set("segment_ends", J::A(ends.iter().take(30).map(|e| J::u(*e)).collect()))
+                .set("server_read_sizes", J::A(obs.server_reads.iter().take(30).map(|e| J::u(*e)).collect()))
+                .set("observation", J::A(c.iter().map(J::s).collect()))
+        });
+    }
+}
+
+pub fn run(ctx: &Ctx) {
+    crate::env::install_fp_hook();
+    crate::env::track_reads(true);
+    let env = Env::new(false, 1);
+    if let Some((cs, mode, repeat)) = &ctx.replay {
+        // mode = "<prop>:<comma separated segment ends>"
+        let mut it = mode.splitn(2, ':');
+        let prop = it.next().unwrap_or("C02").to_string();
+        let ends: Vec<usize> = it.next().unwrap_or("").split(',').filter_map(|s| s.parse().ok()).collect();
+        let g = generate(&prop, *cs, false, 1500);
+        let base = with_script(&g.case, None, 0);
+        let bo = run_conv(&env, &base);
+        let bc = canon(&bo);
+        for _ in 0..(*repeat).max(1) {
+            run_variant(ctx, &env, &prop, *cs, &base, &bo, &bc, ends.clone(), "replay");
+        }
+        return;
+    }
+    let mut rng = Rng::new(ctx.seed ^ ((ctx.shard as u64) << 32) ^ 0xC13);
+    let mut env = env;
+    let mut conv_idx = ctx.shard as u64;
+    let mut conversations = 0u64;
+    while ctx.time_left() {
+        if env.cases_run >= 4000 {
+            env = Env::new(false, 1);
+        }
+        let (prop, cseed) = corpus_entry(ctx.seed, conv_idx);
+        conv_idx += ctx.nshards as u64;
+        let g = generate(&prop, cseed, false, 1500);
+        let base = with_script(&g.case, None, 0);
+        // baseline twice: a conversation whose outcome is not reproducible in one write is not
+        // used as an oracle (none is expected; it would be reported as inconclusive)
+        let bo = run_conv(&env, &base);
+        let bo2 = run_conv(&env, &base);
+        env.cases_run += 2;
+        if bo.connect_err.is_some() || bo.timed_out.is_some() || bo2.timed_out.is_some() {
+            // conversations that stall are C10's business; they are not a usable baseline
+            ctx.rep.inc("conversations_skipped_baseline_timed_out");
+            continue;
+        }
+        let bc = canon(&bo);
+        if bc != canon(&bo2) {
+            ctx.rep.inconclusive("baseline not reproducible");
+            continue;
+        }
+        conversations += 1;
+        ctx.rep.inc(&format!("corpus:{}:{}", prop, g.case.label.split('/').next().unwrap_or("")));
+        let n = base.wire.len();
+        let slice_deadline = std::time::Instant::now() + std::time::Duration::from_millis(if ctx.thorough { 6000 } else { 1500 });
+        // every single split point (all of them for short conversations, a sample otherwise)
+        let mut points: Vec<usize> = (1..n).collect();
+        if n > 700 {
+            rng.shuffle(&mut points);
+            points.truncate(if ctx.thorough { 300 } else { 60 });
+            // the buffer boundaries are always included
+            for p in [1023usize, 1024, 1025, 2048] {
+                if p < n {
+                    points.push(p);
+                }
+            }
+        }
+        for p in points {
+            if !ctx.time_left() || std::time::Instant::now() > slice_deadline {
+                break;
+            }
+            run_variant(ctx, &env, &prop, cseed, &base, &bo, &bc, vec![p, n], "single-split");
+            env.cases_run += 1;
+        }
+        // one byte at a time
+        if n <= 600 && ctx.time_left() {
+            run_variant(ctx, &env, &prop, cseed, &base, &bo, &bc, (1..=n).collect(), "byte-by-byte");
+            env.cases_run += 1;
+        }
+        // random multi-way splits
+        let nrand = if ctx.thorough { 200 } else { 25 };
+        for _ in 0..nrand {
+            if !ctx.time_left() {
+                break;
+            }
+            let k = rng.range(2, 12);
+            let ends = gen::random_splits(&mut rng, n, k);
+            run_variant(ctx, &env, &prop, cseed, &base, &bo, &bc, ends, "random-k-way");
+            env.cases_run += 1;
+        }
+        if ctx.rep.n_violations() >= 8 {
+            break;
+        }
+    }
+    ctx.rep.counts.add("conversations", conversations);
 }
